@@ -125,5 +125,15 @@ CoreAllowed(e) ==
        /\ Det3(M) = 1
        /\ \A i \in 1..3, j \in 1..3 : Abs(e.tr[i][j] - M[j][i] * SC) <= 2 /\ Abs(e.tr[i][j] - e.inv[i][j]) <= 3
 
+\* A rotation about a coordinate axis by an angle of thousands of turns.  f32 cannot name such an
+\* angle to better than ~5e-4 rad, so WHICH rotation comes out is not judged - that it is one is:
+\* e.q = m * transpose(m) (scaled QS), e.det (scaled QS), e.inv and e.tr (scaled QS)
+QS == 16384
+RotAllowed(e) ==
+  /\ e.panic = 0
+  /\ \A i \in 1..3, j \in 1..3 : Abs(e.q[i][j] - (IF i = j THEN QS ELSE 0)) <= 2     \* orthonormal rows (1e-4)
+  /\ Abs(e.det - QS) <= 2                                                            \* handedness and volume kept
+  /\ \A i \in 1..3, j \in 1..3 : Abs(e.inv[i][j] - e.tr[i][j]) <= 3                   \* transpose = inverse
+
 Allowed(e) == CoreAllowed(e) /\ VecClass(e, PathMat(e.path), Tol(MaxAbs(PathMat(e.path)) + 4)) = "lin"
 =============================================================================
